@@ -129,7 +129,8 @@ func runUnit(b *built, job unitJob, prop, tier string, seed int64, budget time.D
 	outFile := filepath.Join(b.dir, fmt.Sprintf("res-%d.json", idx))
 	args := []string{"run", "-prop", prop, "-tier", tier, "-unit", job.id, "-seed", strconv.FormatInt(seed, 10), "-budget", budget.String(), "-out", outFile}
 	cmd := exec.Command(job.worker, args...)
-	cmd.Env = append(os.Environ(), "GOMAXPROCS=2", "GORACE=halt_on_error=1 exitcode=66")
+	raceLog := filepath.Join(b.dir, fmt.Sprintf("racelog-%d", idx))
+	cmd.Env = append(os.Environ(), "GOMAXPROCS=2", "GORACE=halt_on_error=0 exitcode=0 log_path="+raceLog, "VERIF_RACELOG="+raceLog)
 	var buf bytes.Buffer
 	cmd.Stdout = &buf
 	cmd.Stderr = &buf
@@ -434,7 +435,8 @@ func cmdRun(args []string) int {
 			okN := 0
 			for i := 0; i < 5; i++ {
 				c := exec.Command(w, "replay", "-file", path, "-tier", *tier, "-seed", strconv.FormatInt(seed, 10))
-				c.Env = append(os.Environ(), "GORACE=halt_on_error=1 exitcode=66")
+				rl := filepath.Join(b.dir, fmt.Sprintf("racelog-replay-%d", i))
+				c.Env = append(os.Environ(), "GORACE=halt_on_error=0 exitcode=0 log_path="+rl, "VERIF_RACELOG="+rl)
 				out, err := c.CombinedOutput()
 				if ee, ok := err.(*exec.ExitError); ok && (ee.ExitCode() == 1 || ee.ExitCode() == 66) {
 					okN++
@@ -597,7 +599,8 @@ func cmdReplay(args []string) int {
 	c := exec.Command(w, "replay", "-file", path)
 	c.Stdout = os.Stdout
 	c.Stderr = os.Stderr
-	c.Env = append(os.Environ(), "GORACE=halt_on_error=1 exitcode=66")
+	rl := filepath.Join(b.dir, "racelog-replay")
+	c.Env = append(os.Environ(), "GORACE=halt_on_error=0 exitcode=0 log_path="+rl, "VERIF_RACELOG="+rl)
 	if err := c.Run(); err != nil {
 		if ee, ok := err.(*exec.ExitError); ok {
 			return ee.ExitCode()
